@@ -213,29 +213,32 @@ func runC13(c *Ctx) {
 		return ok && typeShort(ta.AssertedType) == "map[string]interface{}" && c.Path(ta.X, env) == V
 	}})
 	{
-		// member set literal
-		var sets [][]string
-		forEachInstr(repl, func(in ssa.Instruction) {
-			if a, ok := in.(*ssa.Alloc); ok {
-				if arr, isArr := a.Type().Underlying().(*types.Pointer).Elem().Underlying().(*types.Array); isArr && types.TypeString(arr.Elem(), nil) == "string" {
-					sets = append(sets, constStringsOfAlloc(c, a))
+		// every member name of the replace document is tested against the constant set {publicKeys, services}, in any
+		// spelling (membership function over a literal, map literal lookup, switch / equality chain); for-all form
+		tests := c.constSetTests(repl, nil, func(p string) bool { return strings.Contains(p, "range(") })
+		okSet, okAll := false, false
+		var got [][]string
+		for _, t := range tests {
+			got = append(got, t.set)
+			if !eqStrs(t.set, []string{"publicKeys", "services"}) {
+				continue
+			}
+			okSet = true
+			cut := map[edge]bool{}
+			for _, e := range t.member {
+				cut[e] = true
+			}
+			for _, l := range naturalLoops(repl) {
+				if l.blocks[t.blk] {
+					if ok, _ := c.loopForall(repl, l, cut, "member name ∈ allowed set"); ok && !loopBypassed(repl, l) {
+						okAll = true
+					}
 				}
 			}
-		})
-		ok := len(sets) == 1 && eqStrs(sets[0], []string{"publicKeys", "services"})
-		c.Check("C13.T2", "replace:member-set", ok, repl.Pos(), fmt.Sprintf("replace document admits exactly the members %v (expected {publicKeys, services})", sets))
+		}
+		c.Check("C13.T2", "replace:member-set", okSet && len(tests) == 1, repl.Pos(), fmt.Sprintf("replace document admits exactly the members %v (expected {publicKeys, services})", got))
 		D := V + ".(map[string]interface{})#0"
-		c.forAllDeep("C13.G1", "replace:only-allowed-members", repl, nil, &GCheck{Name: "member name ∈ allowed set", MatchCall: func(c *Ctx, call *ssa.Call, env Env) bool {
-			g := call.Call.StaticCallee()
-			if g == nil || !inModule(g) || !isBoolType(call.Type()) || len(call.Call.Args) != 2 {
-				return false
-			}
-			if !strings.Contains(c.Path(call.Call.Args[1], env), "range(") {
-				return false
-			}
-			ok, _ := c.isMembershipFn(g)
-			return ok
-		}})
+		c.Check("C13.G1", "replace:only-allowed-members", okAll, repl.Pos(), "every member name of the replace document must be in the allowed set (for-all loop, rejecting only, not bypassable)")
 		_ = D
 		RD := wrapP("document.ReplaceDocumentFromJSONLDObject", hasV)
 		c.keyRules("replace", repl, elemOfP(wrapP("(document.ReplaceDocument).PublicKeys", RD)), idRules, noDup, jwkValidate, ap)
